@@ -540,7 +540,9 @@ func ruleC09SemOn(e *Env, dp *ssa.Function, sums map[string]pred.Summary, vname,
 	}
 	guardOf := func(v pred.Val) (int, bool) { // component k of New(…)
 		t, ok := v.(pred.Term)
-		if !ok || !strings.HasPrefix(t.Fn, "Date#") || len(t.Args) != 1 || !strings.HasPrefix(t.Args[0].String(), "New(") {
+		// … of the date that is accepted: the construction from the three parsed numbers (a guard on New(year, month, 1)
+		// and New(year, January, day) lets 30 February through as 2 March)
+		if !ok || !strings.HasPrefix(t.Fn, "Date#") || len(t.Args) != 1 || t.Args[0].String() != "New(num(cap1),num(cap2),num(cap3))" {
 			return 0, false
 		}
 		return int(t.Fn[len("Date#")] - '0'), true
